@@ -3702,7 +3702,9 @@ class mulgrid(object):
                                              [(0, 1, 2), (2, 3, 4),
                                               (0, 2, 4), (4, 5, 6, 0)],
                                              chars, spaces)
-            elif (nn, ns) == (8, 4):
+            elif (nn, ns) == (8, 4) and \
+                 all([(straight[(i + 1) % 4] - straight[i]) % nn == 2
+                      for i in range(4)]): # (alternating straight nodes)
                 return self.subdivide_column(column_name, straight[0],
                                              [(1, 2, 'c', 0), (2, 3, 4, 'c'),
                                               (4, 5, 6, 'c'), (6, 7, 0, 'c')],
